@@ -220,7 +220,7 @@ def report(prop, res):
                                          "case": {k: it[k] for k in ("n", "deps", "prio", "prio2")}, "hs": it["hs"], "observed": it}})
     else:
         viols = _sel_viol(res, prop)
-    lem = [m for m in sel["mismatches"] if any(c.startswith("LEMMA") for c in m.get("both", []))]
+    lem = [m for m in sel["mismatches"] if any(c.startswith(("LEMMA", "WF.")) for c in m.get("both", []))]
     lem += [m for m in cp["mismatches"] if any(c.startswith("LEMMA") for c in m["c"])]
     if lem:
         mach.append(f"a lemma of the specification failed: {lem[0]}")
@@ -284,7 +284,8 @@ def replay(payload, log=common.say):
         row = payload["row"]
         n = D["n"]
         unmask = lambda m: None if m == -1 else [k for k in range(1, n + 1) if m >> (k - 1) & 1]  # noqa: E731
-        rec = {"n": n, "deps": D["deps"], "kind": D["kind"], "const": D["const"], "obs": [], "built": True, "setuparg": D.get("setuparg", 0)}
+        rec = {"n": n, "deps": D["deps"], "kind": D["kind"], "const": D["const"], "obs": [], "als": [], "built": True, "setuparg": D.get("setuparg", 0),
+               "tagseq": [D.get("tags", {}).get(str(k), []) for k in range(1, n + 1)]}
         try:
             base, ids, xs = ed.build(D)
         except BaseException as e:  # noqa: BLE001
@@ -295,6 +296,7 @@ def replay(payload, log=common.say):
                 off = ed.observe(D, base, ids, xs, row[0], row[1], unmask(row[2]), unmask(row[3]), unmask(row[4]), row[5], 0, random.Random(s), ("id", "ref", "tag", "grp"))
                 on = ed.observe(D, base, ids, xs, row[0], row[1], unmask(row[2]), unmask(row[3]), unmask(row[4]), row[5], 1, random.Random(s), ("id", "ref", "tag", "grp"))
                 rec["obs"].append(row[:6] + off + on)
+                rec["als"].append(ed.observe.aliases)
         mism, counts, _, _, errs = _tlc_batches("SelCheck", "SelCheck.cfg", "dags", [rec], None)
         log(f"observed rows: {rec['obs']}")
     if errs:
